@@ -322,31 +322,134 @@ structure Site where
   ctx : List String      -- enclosing constructs, outermost first: "defer", "loop", "if:<cond>", "else:<cond>"
   deriving DecidableEq, Repr, Inhabited
 
-/-- `skel p ctx`: call sites of `p` in source order.  A `call` is one site (its body belongs to
-the callee's own skeleton); primitives are the sites `<send>` / `<recv>`. -/
-def skel : Sess → List String → List Site
-  | .skip, _ => []
-  | .send _ t, ctx => [⟨"<send>", (match t with | .lit s => [s] | .litNl s => [s ++ "\n"] | _ => ["_"]), ctx⟩]
-  | .recv _ _, ctx => [⟨"<recv>", [], ctx⟩]
-  | .recvMore _, ctx => [⟨"<recv>", [], ctx⟩]
-  | .roundTrip _ _ _, ctx => [⟨"<send>", ["_"], ctx⟩, ⟨"<recv>", [], ctx⟩]
-  | .ite _ label t e, ctx => skel t (ctx ++ ["if:" ++ label]) ++ skel e (ctx ++ ["else:" ++ label])
-  | .abort lits, ctx => [⟨"Abort", lits, ctx⟩]
-  | .warn lits, ctx => [⟨"Warning", lits, ctx⟩]
-  | .mark _, _ => []
-  | .seq a b, ctx => skel a ctx ++ skel b ctx
-  | .forEach body, ctx => skel body (ctx ++ ["loop"])
-  | .defer cleanup body, ctx => skel cleanup (ctx ++ ["defer"]) ++ skel body ctx
-  | .loopN _ body, ctx => skel body (ctx ++ ["loop"])
-  | .loopFuel body, ctx => skel body (ctx ++ ["loop"])
-  | .cont, ctx => [⟨"continue", [], ctx⟩]
-  | .ret _ lits, ctx => [⟨"return", lits, ctx⟩]
-  | .setCtr _, _ => []
-  | .decCtr, _ => []
-  | .setPlan, _ => []
-  | .call name lits _, ctx => [⟨name, lits, ctx⟩]
-  | .scope c body, ctx => skel body (ctx ++ [c])
-  | .when _ body, ctx => skel body ctx
-  | .assumeBanner, _ => []
+/-- A construct that leaves no site (and does not leave the statement list). -/
+def silent : Sess → Bool
+  | .skip | .mark _ | .setCtr _ | .decCtr | .setPlan | .assumeBanner => true
+  | _ => false
+
+/-- `leaves p`: the program text always leaves the enclosing statement list (ends in `return`,
+`continue`, `Abort`, `panic`); the counterpart of `terminates` in `translate/skeleton`. -/
+def leaves : Sess → Bool
+  | .abort _ => true
+  | .ret _ _ => true
+  | .cont => true
+  | .call n _ _ => n == "panic"
+  | .seq a b => leaves a || leaves b
+  | .ite _ _ t e => leaves t && leaves e
+  | .defer _ b => leaves b
+  | .scope c b => c != "loop" && c != "func" && c != "defer" && leaves b
+  | .when _ b => leaves b
+  | _ => false
+
+/-- Polarity of a label: a leading `¬` says that the Go source tests the negation of the
+(positive) condition text that follows. -/
+def labelPol (l : String) : Bool × String :=
+  match l.toList with
+  | '¬' :: r => (true, String.ofList r)
+  | _ => (false, l)
+
+/-- Tail position: last statement of a function body (falling through returns) or of a loop
+body (falling through continues). -/
+inductive Tail | none | fn | loop
+  deriving DecidableEq, Repr
+
+def Tail.any : Tail → Bool
+  | .none => false
+  | _ => true
+
+/-- contexts of the then- and else-branch of a conditional and whether the else-branch is listed
+first -/
+structure IteCtx where
+  ct : List String
+  ce : List String
+  eFirst : Bool
+
+/-- Normal form of a conditional (same rules as `ifStmt` of the translator): the label is the
+positive condition text; the branch taken when it holds is recorded under `if:`, the other under
+`else:`; if the positive branch always leaves (`lt`/`le`: then/else leaves; in tail position every
+branch does) the negative branch is recorded flat after it; if only the negative branch leaves it
+comes first and the positive branch is flat. -/
+def iteCtx (label : String) (lt le : Bool) (ctx : List String) : IteCtx :=
+  let neg := (labelPol label).1
+  let l := (labelPol label).2
+  let lp := if neg then le else lt
+  let ln := if neg then lt else le
+  let cp := if lp || !ln then ctx ++ ["if:" ++ l] else ctx
+  let cn := if lp then ctx else ctx ++ ["else:" ++ l]
+  ⟨if neg then cn else cp, if neg then cp else cn, (neg && (lp || !ln)) || (!neg && !lp && ln)⟩
+
+def scopeTail (c : String) (tl : Tail) : Tail :=
+  if c == "loop" then .loop else if c == "func" || c == "defer" then .fn else tl
+
+/-- `skelT p ctx tl`: call sites of `p` in the normal form of `translate/skeleton`, `p` standing
+in tail position `tl`.  A `call` is one site (its body belongs to the callee's own skeleton);
+primitives are the sites `<send>` / `<recv>`.  The normal form makes `if c {A} else {B}`,
+`if !c {B} else {A}`, `if c {A; return}; B`, `if !c {return}; A` (end of function) coincide:
+* conditionals: `iteCtx`;
+* `if c {T}; K` where `T` always leaves is `if c {T} else {K}`;
+* what follows a statement that always leaves is unreachable and not recorded;
+* a bare `return` at the end of a function and a `continue` at the end of a loop body are not
+  recorded (falling through does the same). -/
+def skelT : Sess → List String → Tail → List Site
+  | .skip, _, _ => []
+  | .send _ t, ctx, _ => [⟨"<send>", (match t with | .lit s => [s] | .litNl s => [s ++ "\n"] | _ => ["_"]), ctx⟩]
+  | .recv _ _, ctx, _ => [⟨"<recv>", [], ctx⟩]
+  | .recvMore _, ctx, _ => [⟨"<recv>", [], ctx⟩]
+  | .roundTrip _ _ _, ctx, _ => [⟨"<send>", ["_"], ctx⟩, ⟨"<recv>", [], ctx⟩]
+  | .ite _ label t e, ctx, tl =>
+    let k := iteCtx label (leaves t || tl.any) (leaves e || tl.any) ctx
+    if k.eFirst then skelT e k.ce tl ++ skelT t k.ct tl else skelT t k.ct tl ++ skelT e k.ce tl
+  | .abort lits, ctx, _ => [⟨"Abort", lits, ctx⟩]
+  | .warn lits, ctx, _ => [⟨"Warning", lits, ctx⟩]
+  | .mark _, _, _ => []
+  | .seq (.ite _ label t e) b, ctx, tl =>
+    if leaves t && silent e then
+      -- `if c {T}; K` = `if c {T} else {K}`
+      let k := iteCtx label true (leaves b || tl.any) ctx
+      if k.eFirst then skelT b k.ce tl ++ skelT t k.ct tl else skelT t k.ct tl ++ skelT b k.ce tl
+    else if silent t && leaves e then
+      let k := iteCtx label (leaves b || tl.any) true ctx
+      if k.eFirst then skelT e k.ce tl ++ skelT b k.ct tl else skelT b k.ct tl ++ skelT e k.ce tl
+    else
+      let tl' := if silent b then tl else .none
+      let k := iteCtx label (leaves t || tl'.any) (leaves e || tl'.any) ctx
+      (if k.eFirst then skelT e k.ce tl' ++ skelT t k.ct tl' else skelT t k.ct tl' ++ skelT e k.ce tl') ++
+      (if leaves t && leaves e then [] else skelT b ctx tl)
+  | .seq a b, ctx, tl =>
+    skelT a ctx (if silent b then tl else .none) ++ (if leaves a then [] else skelT b ctx tl)
+  | .forEach body, ctx, _ => skelT body (ctx ++ ["loop"]) .loop
+  | .defer cleanup body, ctx, tl => skelT cleanup (ctx ++ ["defer"]) .fn ++ skelT body ctx tl
+  | .loopN _ body, ctx, _ => skelT body (ctx ++ ["loop"]) .loop
+  | .loopFuel body, ctx, _ => skelT body (ctx ++ ["loop"]) .loop
+  | .cont, ctx, tl => if tl = .loop then [] else [⟨"continue", [], ctx⟩]
+  | .ret _ lits, ctx, tl => if lits.isEmpty && tl = .fn then [] else [⟨"return", lits, ctx⟩]
+  | .setCtr _, _, _ => []
+  | .decCtr, _, _ => []
+  | .setPlan, _, _ => []
+  | .call name lits _, ctx, _ => [⟨name, lits, ctx⟩]
+  | .scope c body, ctx, tl => skelT body (ctx ++ [c]) (scopeTail c tl)
+  | .when _ body, ctx, tl => skelT body ctx tl
+  | .assumeBanner, _, _ => []
+
+/-- `a ;; c` for a right-nested `a` -/
+def seqApp : Sess → Sess → Sess
+  | .seq x y, c => .seq x (seqApp y c)
+  | x, c => .seq x c
+
+/-- the same program with every sequence nested to the right (`(a ;; b) ;; c` as `a ;; b ;; c`):
+a statement list, as the translator sees it -/
+def rassoc : Sess → Sess
+  | .seq a b => seqApp (rassoc a) (rassoc b)
+  | .ite c l t e => .ite c l (rassoc t) (rassoc e)
+  | .forEach body => .forEach (rassoc body)
+  | .defer cleanup body => .defer (rassoc cleanup) (rassoc body)
+  | .loopN n body => .loopN n (rassoc body)
+  | .loopFuel body => .loopFuel (rassoc body)
+  | .scope c body => .scope c (rassoc body)
+  | .when c body => .when c (rassoc body)
+  | p => p
+
+/-- the skeleton of a function body -/
+def skel (p : Sess) (ctx : List String) : List Site := skelT (rassoc p) ctx .fn
 
 end NA.Sess
